@@ -707,6 +707,11 @@ func (hs *serverHandshakeStateGM) setCipherSuite(id uint16, supportedCipherSuite
 			if version < VersionTLS12 && candidate.flags&suiteTLS12 != 0 {
 				continue
 			}
+			if candidate.flags&suiteECDHE != 0 {
+				// the server side of the GMSSL ECDHE key exchange is not implemented:
+				// selecting such a suite can only abort the handshake later
+				continue
+			}
 			hs.suite = candidate
 			return true
 		}
